@@ -394,13 +394,16 @@ Varable failures: {var_failed}
             self, var, key=key, dtype=dtype, dimensions=dimensions,
             fill_value=fill_value, withdata=withdata)
 
-        # The long_name should be the same as the copied key
-        outvar.long_name = key.ljust(16)
-        # The var_desc and units should default to the copied variable
-        if not hasattr(outvar, 'var_desc'):
-            outvar.var_desc = key.ljust(80)
-        if not hasattr(outvar, 'units'):
-            outvar.units = 'unknown'.ljust(16)
+        isioapivar = tuple(outvar.dimensions) in (
+            ('TSTEP', 'LAY', 'ROW', 'COL'), ('TSTEP', 'LAY', 'PERIM'))
+        if isioapivar:
+            # The long_name should be the same as the copied key
+            outvar.long_name = key.ljust(16)
+            # The var_desc and units should default to the copied variable
+            if not hasattr(outvar, 'var_desc'):
+                outvar.var_desc = key.ljust(80)
+            if not hasattr(outvar, 'units'):
+                outvar.units = 'unknown'.ljust(16)
 
         self._add2Varlist([key])
         return outvar
